@@ -8,6 +8,8 @@ import (
 	"go/types"
 	"sort"
 	"strings"
+
+	"golang.org/x/tools/go/packages"
 )
 
 // ---------------------------------------------------------------------------
@@ -365,6 +367,51 @@ func ruleR047(c *Ctx) {
 				k++
 				n++
 				key := fmt.Sprintf("%s#string-bounds[%d]:%s", fname, k, nodeStr(c.Fset, x))
+				// a constant table indexed with values computed from the scanned rune inside a switch case: the expression
+				// is folded for every constant of the case; it is in bounds if folding succeeds for all of them
+				// (constEval refuses an out-of-range slice)
+				if tvb := info.Types[base]; tvb.Value != nil {
+					var cc *ast.CaseClause
+					for q := c.Parent(x); q != nil && q != ast.Node(fd); q = c.Parent(q) {
+						if t, ok := q.(*ast.CaseClause); ok {
+							cc = t
+							break
+						}
+					}
+					if cc != nil && len(cc.List) > 0 {
+						if sw, ok := c.Parent(c.Parent(cc)).(*ast.SwitchStmt); ok {
+							var tagObjs []types.Object
+							if tg, ok := sw.Tag.(*ast.Ident); ok {
+								tagObjs = append(tagObjs, info.ObjectOf(tg))
+							}
+							if as, ok := sw.Init.(*ast.AssignStmt); ok && len(as.Lhs) == 1 {
+								if id, ok := as.Lhs[0].(*ast.Ident); ok {
+									tagObjs = append(tagObjs, info.ObjectOf(id))
+								}
+							}
+							all := len(tagObjs) > 0
+							for _, e := range cc.List {
+								tv := info.Types[e]
+								if tv.Value == nil {
+									all = false
+									break
+								}
+								bind := map[types.Object]constant.Value{}
+								for _, o := range tagObjs {
+									bind[o] = tv.Value
+								}
+								if _, ok := constEval(info, x.(ast.Expr), bind); !ok {
+									all = false
+									break
+								}
+							}
+							if all {
+								c.OK(key, x.Pos(), "a constant table indexed with values computed from the case constants: in bounds for every constant of the case (folded)")
+								return true
+							}
+						}
+					}
+				}
 				var bad []string
 				for _, b := range bounds {
 					if b == nil {
@@ -885,4 +932,264 @@ func ruleR0411(c *Ctx) {
 	if n < 3 {
 		c.Undecided("parser2.Identifiers#lookup-functions", token.NoPos, "only %d lookup functions found", n)
 	}
+}
+
+// ---------------------------------------------------------------------------
+// R04.12 Generate-time execution of program-defined code.
+//
+// C04 bounds the running time of Parse and Generate by the length of the
+// input. The optimizer folds constant sub-expressions by *running* them. For
+// operators and static functions the cost is that of one library call on
+// constant operands. Where it applies a constant closure of the program, or a
+// method (which may drive a lazy list of any length, or call closures), the
+// cost is that of an arbitrary computation of the program: nothing in the
+// code bounds it (no step budget, no size limit, no deadline). Every such
+// site is an obligation; there is no accepted idiom yet, so each site is
+// either a known finding with its failing input or a violation.
+
+func ruleR0412(c *Ctx) {
+	decls, fg := c.optimizerMethods()
+	if len(decls) == 0 {
+		c.Undecided("funcGen:Optimizer-implementations", token.NoPos, "no type implementing parser2.Optimizer found in funcGen")
+		return
+	}
+	a := c.genAnchors()
+	if len(a.missing) > 0 {
+		c.Undecided(strings.Join(a.missing, ","), token.NoPos, "anchors not found")
+		return
+	}
+	info := fg.TypesInfo
+	n := 0
+	for _, fd := range decls {
+		fname := declName(fg, fd)
+		ord := map[string]int{}
+		ast.Inspect(fd.Body, func(x ast.Node) bool {
+			call, ok := x.(*ast.CallExpr)
+			if !ok {
+				return true
+			}
+			sel, ok := ast.Unparen(call.Fun).(*ast.SelectorExpr)
+			if !ok {
+				return true
+			}
+			fs, ok := info.Selections[sel]
+			if !ok || fs.Kind() != types.FieldVal {
+				return true
+			}
+			if nm := namedOf(info.TypeOf(sel.X)); nm == nil || nm.Obj() != a.funcType {
+				return true
+			}
+			if _, isSig := fs.Obj().Type().Underlying().(*types.Signature); !isSig {
+				return true
+			}
+			// where does the Function value come from?
+			kind, origin := "unknown", nodeStr(c.Fset, sel.X)
+			if id, ok := ast.Unparen(sel.X).(*ast.Ident); ok {
+				if as, i := definingAssign(info, fd, info.ObjectOf(id)); as != nil {
+					var rhs ast.Expr
+					if len(as.Rhs) == len(as.Lhs) {
+						rhs = as.Rhs[i]
+					} else if len(as.Rhs) == 1 {
+						rhs = as.Rhs[0]
+					}
+					switch r := ast.Unparen(rhs).(type) {
+					case *ast.IndexExpr:
+						if _, isMap := info.TypeOf(r.X).Underlying().(*types.Map); isMap {
+							kind, origin = "static-function", nodeStr(c.Fset, r.X)
+						}
+					case *ast.CallExpr:
+						if cal := Callee(info, r); cal != nil {
+							origin = cal.Name()
+							if sig, ok := cal.Type().(*types.Signature); ok && sig.Recv() != nil {
+								if rn := namedOf(sig.Recv().Type()); rn != nil {
+									switch {
+									case strings.Contains(rn.Obj().Name(), "Closure"):
+										kind = "closure"
+									case strings.Contains(rn.Obj().Name(), "Method"):
+										kind = "method"
+									}
+								}
+							}
+						}
+					}
+				}
+			}
+			n++
+			ord[kind]++
+			key := fmt.Sprintf("%s#generate-time-exec:%s[%d]", fname, kind, ord[kind])
+			switch kind {
+			case "static-function":
+				c.OK(key, call.Pos(), "a static function (%s) is applied to constant arguments: one call of library or host code, whose cost the host declares acceptable by registering the function as pure", origin)
+			case "closure":
+				c.Violation(key, call.Pos(), "the optimizer applies a constant closure of the program (%s) to constant arguments while Parse/Generate runs, without a step budget, size limit or deadline: the running time of Parse/Generate is that of the program's constant sub-expressions, not a function of the length of the input", origin)
+			case "method":
+				c.Violation(key, call.Pos(), "the optimizer calls a method (%s) on a constant value while Parse/Generate runs, without a step budget, size limit or deadline: a method may consume a lazy list of any length or call closures, so the running time of Parse/Generate is not a function of the length of the input", origin)
+			default:
+				c.Undecided(key, call.Pos(), "a Function value of unknown origin (%s) is executed by the optimizer", origin)
+			}
+			return true
+		})
+	}
+	if n == 0 {
+		c.Undecided("funcGen.optimizer#generate-time-exec", token.NoPos, "no execution of a Function by the optimizer found (constant folding of calls expected)")
+	}
+}
+
+// ---------------------------------------------------------------------------
+// R04.13 no unchecked type assertion on a language value in Generate-time code.
+//
+// Code that runs while Generate runs (the generator functions - those that
+// call GenerateFunc - including the custom generators of the packages, and
+// the functions they call in their own package; not the closures they return,
+// which run during evaluation and are covered by C05) sees constants of the
+// program. Their dynamic type is whatever the program wrote: a single-value
+// type assertion x.(T) on a value of the language panics for `3 & x` where it
+// expected a Bool - and Generate has no recover. The comma-ok form, a type
+// switch, or an assertion dominated by a successful test of the same operand
+// for the same type are the accepted forms.
+
+func ruleR0413(c *Ctx) {
+	a := c.genAnchors()
+	if len(a.missing) > 0 {
+		c.Undecided(strings.Join(a.missing, ","), token.NoPos, "anchors not found")
+		return
+	}
+	vp := c.Pkg("value")
+	var valueIface *types.Interface
+	if vp != nil {
+		if vt := LookupType(vp, "Value"); vt != nil {
+			valueIface, _ = vt.Type().Underlying().(*types.Interface)
+		}
+	}
+	isLangValue := func(t types.Type) bool {
+		if t == nil {
+			return false
+		}
+		if _, ok := t.(*types.TypeParam); ok {
+			return true
+		}
+		if vp != nil && isNamed(t, modPath+"/value", "Value") {
+			return true
+		}
+		_ = valueIface
+		return false
+	}
+	fwd := c.forwarders(a)
+	// generate-time bodies: generator functions and the same-package functions they call outside returned closures
+	type gbody struct {
+		pkg *packages.Package
+		fd  *ast.FuncDecl
+	}
+	var work []gbody
+	seen := map[*ast.FuncDecl]bool{}
+	for _, gi := range c.generatorFuncs(a, fwd) {
+		work = append(work, gbody{gi.pkg, gi.decl})
+	}
+	isEvalLit := func(pkg *packages.Package, lit *ast.FuncLit) bool {
+		if lit.Type.Params == nil {
+			return false
+		}
+		for _, f := range lit.Type.Params.List {
+			if a.isStack(pkg.TypesInfo.TypeOf(f.Type)) {
+				return true
+			}
+		}
+		return false
+	}
+	nBodies, nAssert := 0, 0
+	for len(work) > 0 {
+		b := work[len(work)-1]
+		work = work[:len(work)-1]
+		if seen[b.fd] || b.fd.Body == nil {
+			continue
+		}
+		seen[b.fd] = true
+		if strings.HasSuffix(b.pkg.PkgPath, "/gen") || strings.Contains(b.pkg.PkgPath, "/example") {
+			continue
+		}
+		nBodies++
+		info := b.pkg.TypesInfo
+		fname := declName(b.pkg, b.fd)
+		g := c.CFG(b.fd)
+		ord := 0
+		var walk func(n ast.Node) bool
+		walk = func(n ast.Node) bool {
+			switch t := n.(type) {
+			case *ast.FuncLit:
+				if isEvalLit(b.pkg, t) {
+					return false // runs during evaluation
+				}
+			case *ast.CallExpr:
+				if cal := Callee(info, t); cal != nil && cal.Pkg() == b.pkg.Types {
+					if fd := findFuncDecl(b.pkg, cal); fd != nil && !seen[fd] {
+						// registration code and constructors are not generate-time code: follow only helpers that take part of the AST
+						takesAST := false
+						if fd.Type.Params != nil {
+							for _, f := range fd.Type.Params.List {
+								if isNamed(info.TypeOf(f.Type), modPath, "AST") {
+									takesAST = true
+								}
+							}
+						}
+						if takesAST {
+							work = append(work, gbody{b.pkg, fd})
+						}
+					}
+				}
+			case *ast.TypeSwitchStmt:
+				// the assertion of a type switch cannot fail
+				if t.Init != nil {
+					ast.Inspect(t.Init, walk)
+				}
+				ast.Inspect(t.Body, walk)
+				return false
+			case *ast.TypeAssertExpr:
+				if t.Type == nil || !isLangValue(info.TypeOf(t.X)) {
+					return true
+				}
+				// comma-ok form?
+				switch p := c.Parent(t).(type) {
+				case *ast.AssignStmt:
+					if len(p.Lhs) == 2 && len(p.Rhs) == 1 && ast.Unparen(p.Rhs[0]) == ast.Expr(t) {
+						return true
+					}
+				case *ast.ValueSpec:
+					if len(p.Names) == 2 && len(p.Values) == 1 {
+						return true
+					}
+				}
+				nAssert++
+				ord++
+				key := fmt.Sprintf("%s#unchecked-assertion[%d]:%s", fname, ord, nodeStr(c.Fset, t))
+				// dominated by a successful comma-ok test of the same operand and type
+				safe := false
+				if g != nil {
+					for _, gd := range g.Guards(t) {
+						id, ok := ast.Unparen(gd.Cond).(*ast.Ident)
+						if !ok || !gd.Val {
+							continue
+						}
+						if as, i := definingAssign(info, b.fd, info.ObjectOf(id)); as != nil && i == 1 && len(as.Rhs) == 1 {
+							if ta, ok := ast.Unparen(as.Rhs[0]).(*ast.TypeAssertExpr); ok && ta.Type != nil &&
+								nodeStr(c.Fset, ta.X) == nodeStr(c.Fset, t.X) && nodeStr(c.Fset, ta.Type) == nodeStr(c.Fset, t.Type) {
+								safe = true
+							}
+						}
+					}
+				}
+				if safe {
+					c.OK(key, t.Pos(), "dominated by a successful test of the same operand for the same type")
+				} else {
+					c.Violation(key, t.Pos(), "Generate-time code asserts the dynamic type of a value of the language with the single-value form %s: a constant of another type written by the program (e.g. `3 & x` where a Bool is expected) makes Generate panic, and Generate has no recover", nodeStr(c.Fset, t))
+				}
+			}
+			return true
+		}
+		ast.Inspect(b.fd.Body, walk)
+	}
+	if nBodies < 5 {
+		c.Undecided("funcGen#generate-time-code", token.NoPos, "only %d generate-time function bodies found", nBodies)
+		return
+	}
+	c.OK("funcGen#generate-time-code", token.NoPos, "%d generate-time function bodies examined (closures that run during evaluation excluded): %d single-value type assertions on language values", nBodies, nAssert)
 }
